@@ -27,13 +27,22 @@ RULE = ('scenarios from one PRNG state over the configuration lattice: 2..5 chan
         'path on the values converted to float64 (exact); histories: one cache re-queried with other pair lists / after cache_to_psd and the phases / after a '
         'second cache_fft with other band and flags, every result handed out (frequency vector too) overwritten in place, then the first query again on the '
         'same and on a fresh cache; a NEW Sparse / Seed analyzer after all results of an earlier one were overwritten. '
-        'distinct = distinct protocol line')
+        'distinct = distinct protocol line'
+        ' ROUND 2 (own small scenarios; every exception of a refused call is caught): held results -- ONE cache queried again and again through the four cache_to_* functions with other and equal pair lists '
+        '(several of equal output shape), every result kept and re-inspected at the END (unchanged, no memory shared with the cache or another result, still the dense values), also SparseCoherenceAnalyzer.coherency '
+        'held while analyzer.cache is queried again; sessions -- ONE SparseCoherenceAnalyzer (or a copy.copy of it) through 8 patterns of set_input calls with a series lacking a channel of ij, a 1-d series, a good series '
+        'of another rate, the same object after an in-place change, a row-strided view, reset(), with / without a caller-fixed Fs: frequencies / spectrum / delay / coherency = the dense computation on the input '
+        'ACTUALLY HELD, vars() compared across a refused call; cache_fft refused (lb > ub, window length, unknown this_method, non-integer NFFT) and cache_to_* for a pair the cache lacks, then the proper call with the '
+        'same method dict / cache; SeedCoherenceAnalyzer whose seed samples are a row-strided / reversed VIEW of the target samples, the result held across an in-place change of the seed.')
 ASSUMPTIONS = ['real-valued input, 0 <= n_overlap < NFFT, Fs > 0, real window with non-zero energy, 0 <= lb <= ub <= Fs/2',
                'band edges are generated off the frequency grid (or 0 / None), so that an ulp of difference between two evaluations of the same grid cannot move a bin',
                'scale_by_freq=False has no dense counterpart in get_spectra: the cached PSD is then compared with Fs x the dense density',
                'cache_to_relative_phase averages per-window angles; it is compared with the dense angle only for a single window (the property clause), '
                'with the model otherwise; DC / Nyquist bins (real spectra, angle 0 or pi by rounding) are left out of multi-window phase comparisons']
-TRUSTED_EXTRA = c08.TRUSTED_EXTRA[:3] + ['harness/translate_c09.py: which expression cache_fft assigns to window_vals in the sequence / function branch -> Generated/CacheWin.lean (echoed in the evidence)',
+TRUSTED_EXTRA = c08.TRUSTED_EXTRA[:3] + ['harness/translate_c09.py gen_out: how each cache_to_* function binds the object it returns (np.zeros / {} in the function itself, or an expression that involves `cache`), whether it writes into '
+                                         '`cache` or hands it to a helper, whether the entries it stores are new arrays -> Generated/CacheOut.lean; the heap model of Nitime/Model/C09Out.lean (an allocated array is nobody else\'s) is monitored by the `outhist` correspondence',
+                                         'Generated/SetInput.lean (translate_c05.py gen_setinput) + Nitime/Model/CohSession.lean for SparseCoherenceAnalyzer.set_input: monitored by the `sess` correspondence (rate used, series held)',
+                                         'harness/translate_c09.py: which expression cache_fft assigns to window_vals in the sequence / function branch -> Generated/CacheWin.lean (echoed in the evidence)',
                                          'Lemmas/C09FloatBand.lean models binary64 arithmetic by an abstract monotone rounding with r(0)=0 and relative error u (true of IEEE round-to-nearest); '
                                          'that numpy evaluates get_freqs as fl(fl(k*fl(1/N))*Fs) is checked bit-for-bit by the correspondence (CohBase.getFreqs)',
                                          'a window handed over as a float32 array makes numpy compute in single precision in the cache path AND in the dense path: those scenarios are compared at 3e-5, all others at 1e-9','np.linspace, np.searchsorted by their numpy semantics (model: linspace0, searchLeft/Right, bit-exact)',
@@ -821,6 +830,7 @@ def r2_scenarios(rng, tier, seed):
                     else:
                         sc['events'].append([t])
                 sc['userfs'] = (k == 10)                       # the ninth session: the caller fixes 'Fs' in the method dict
+                sc['shallow'] = (k % 4 == 3) and not any(e[0] == 's' and e[1] == 'same-changed' for e in sc['events'])
             elif kind == 'refused':
                 sc['refusals'] = ['inverted-band', 'window-length', 'unknown-method', 'nfft-float', 'pair-not-cached']
             else:
@@ -956,6 +966,7 @@ def r2_sess(sc):
     from fractions import Fraction as Fr
     from nitime.analysis import SparseCoherenceAnalyzer
     X = np.array(sc['data'], dtype=float)
+    X0 = X.copy()
     nch, n = X.shape
     ij = [tuple(p) for p in sc['ij']]
     kw = dict(lb=sc['lb'], ub=sc['ub'], prefer_speed_over_memory=sc['psm'], scale_by_freq=sc['sbf'])
@@ -968,6 +979,10 @@ def r2_sess(sc):
         del m['Fs']
     T0 = ts.TimeSeries(X, sampling_rate=sc['Fs'])
     S = SparseCoherenceAnalyzer(T0, ij, method=m, **kw)
+    S0 = None
+    if sc.get('shallow'):
+        import copy                      # L8: the session runs on a shallow copy; the original stays on T0
+        S0, S = S, copy.copy(S)
     inputs = [T0]
     degenerate = {}
     res = {'seen': [], 'reads': [], 'bad': [], 'nraise': 0}
@@ -1050,6 +1065,19 @@ def r2_sess(sc):
             ok_ = np.isfinite(wd) & (np.abs(wc) > 1e-6) & (np.abs(np.abs(np.angle(wc)) - np.pi) > 1e-6)
             if gd.shape != wd.shape or (ok_.any() and not np.allclose(gd[ok_], wd[ok_], rtol=1e-7, atol=1e-12)):
                 res['bad'].append((pre + '/delay-ne-dense', 'events %s: .delay differs from angle(coherency())/(2 pi f) with the dense grid of the series held (#%d, %s Hz)' % (evs, hid, Fh), 'sess'))
+    if S0 is not None:
+        F0 = ufs if ufs is not None else sc['Fs']
+        fd, cden, fxy = _dense(X0, sc, Fs=F0)
+        try:
+            f0 = np.array(S0.frequencies)
+            chans = sorted({c for p in ij for c in p})
+            p0 = np.array([np.real(S0.spectrum[c]).reshape(-1) for c in chans])
+            wp = np.array([np.real(fxy[c, c]) for c in chans]) * (1.0 if sc['sbf'] else F0)
+            if not c08.same(f0, fd, 1e-12) or not c08.same(p0, wp, 1e-9):
+                res['bad'].append(('sparse-session/shallow-copy/original-ne-dense', 'a shallow copy of the analyzer went through set_input calls; the ORIGINAL, still on its '
+                                   'first input (%s Hz), reports frequencies %s… / a spectrum that differ from the dense path' % (F0, f0[:3].tolist()), 'sess'))
+        except Exception as e:  # noqa
+            res['bad'].append(('sparse-session/shallow-copy/original-raises', 'after a shallow copy went through set_input calls the original raises %r' % (e,), 'sess'))
     res['line'] = 'C09 sess %s %s %s' % ('none' if ufs is None else Fr(ufs), Fr(sc['Fs']), ' '.join(res['seen']))
     res['impl'] = ' '.join('%d@%s' % (h, Fr(fs)) for h, fs in res['reads']) or 'none'
     return res
